@@ -301,6 +301,7 @@ Proof.
       destruct r.
       * destruct v; try discriminate. inversion E; subst. reflexivity.
       * destruct (as_real v); [|discriminate]. inversion E; subst. reflexivity.
+      * destruct v; try discriminate. destruct (Nat.eqb _ _); [|discriminate]. inversion E; subst. reflexivity.
   - rewrite fill_Node in E. rewrite P in E. cbn [negb] in E.
     destruct (if has_quantity k then qfn q d else QV VNone) as [v|]; [|discriminate].
     destruct (route k (List.length fx) v w) as [|ws sk]; [discriminate|].
@@ -456,12 +457,13 @@ Proof.
     + intro E; inversion E; subst; clear E. split; [apply only_length|]. left; split; auto. apply wsum_only.
       apply irr_index_bound in Ei. eapply Nat.lt_le_trans; [exact Ei | simpl; lia].
     + exfalso. apply (Ht x); assumption.
-  - subst n. destruct v as [x|s|b|].
+  - subst n. destruct v as [x|s|b| |l].
     + destruct (nisnan x); [|discriminate]. intro E; inversion E; subst; clear E. split; auto.
       right. eexists; split; reflexivity.
     + intro E; inversion E; subst; clear E. split; auto. right. eexists; split; reflexivity.
     + intro E; inversion E; subst; clear E. split; auto. right. eexists; split; reflexivity.
     + intro E; inversion E; subst; clear E. split; auto. right. eexists; split; reflexivity.
+    + discriminate.
 Qed.
 
 Notation kent := (fun kc : key * xagg => @entries_of Xq (snd kc)).
@@ -564,6 +566,8 @@ Proof.
   destruct r.
   - destruct v; try discriminate. intro E; inversion E; subst. cbn [lv]. apply B.
   - destruct (@as_real Xq v); [|discriminate]. intro E; inversion E; subst. cbn [lv]. apply B.
+  - destruct v; try discriminate. destruct (Nat.eqb _ _); [|discriminate].
+    intro E; inversion E; subst. cbn [lv]. apply B.
 Qed.
 
 Lemma fill_inv_children d (spec l : list xagg) :
